@@ -1,4 +1,5 @@
 import Drx.Riff
+import Drx.RiffSpec
 import Drx.Drv.Util
 namespace Drx.Drv.Riff
 open Drx Drx.Drv Drx.Riff
@@ -24,6 +25,21 @@ def designated (d : Bytes) (P : Nat) (o : Order) : R J := do
   let l ← go mm.resources 0
   pure (J.arr l)
 
+/-- tie between generated inputs and the encoder the theorems talk about: re-read the raw id bytes at each chunk
+    start, rebuild the spec chunk list and check that `encMovie` reproduces the input bytes exactly -/
+def reencodes (d : Bytes) (P : Nat) (o : Order) : Bool :=
+  match parseRiff d P o, getS o 4 d (P + 4) with
+  | .ok cs, .ok len =>
+    let rec go : List Chunk → Nat → List SChunk
+      | [], _ => []
+      | c :: rest, off =>
+        let raw := slice d off (off + 4)
+        ⟨(match o with | .be => raw | .le => raw.reverse), c.data⟩ :: go rest (off + 8 + c.data.length + c.data.length % 2)
+    let scs := go cs (P + 12)
+    -- pad bytes are zero in the spec encoder; the generator writes zero pads too
+    encMovie o (d.take P) len scs == d
+  | _, _ => false
+
 /-- commands of the `riff` family (see harness/c01.py) -/
 def run : List String → Option String
   | ["fourcc", o, h] => do
@@ -32,6 +48,9 @@ def run : List String → Option String
   | ["parse", o, off, h] => do
     let o ← parseOrder o; let off ← parseNat off; let b ← bytesOfHex h
     some (rJ (fun cs => J.arr (cs.map Chunk.toJ)) (parseRiff b off o))
+  | ["reenc", o, off, h] => do
+    let o ← parseOrder o; let off ← parseNat off; let b ← bytesOfHex h
+    some (if reencodes b off o then "true" else "false")
   | ["steps", o, off, h] => do
     let o ← parseOrder o; let off ← parseNat off; let b ← bytesOfHex h
     some (toString (walkSteps b o (off + 12)))
